@@ -375,6 +375,25 @@ def cancel_cases(rng):
                     mon.append(("cancel-returns-record", "%s cancel_jobs(%s) raised %r" % (which, ids, e)))
                 cases.append(Case({"cancel": which, "ids": ids, "rc": rc},
                                   ["sched.cancel n=%d rc=%d" % (len(ids), rc)], [out], mon, True))
+    # many live jobs: every id must reach the cancel command, whatever the size of the list
+    for which, cmd in (("slurm", "scancel"), ("lsf", "bkill")):
+        for n_ids in (7, 100, 130, rng.choice([101, 199, 257, 300])):
+            ids = [str(5000 + i) for i in range(n_ids)]
+            fakeenv.SUB.set(**{cmd: ("", "", 0)})
+            mon = []
+            try:
+                rec = ad[which].cancel_jobs(list(ids))
+                out = "%s %d" % (rec.cancel_status.name, rec.return_code)
+            except Exception as e:  # noqa
+                out = "RAISE:%s" % type(e).__name__
+                mon.append(("cancel-returns-record", "%s cancel_jobs of %d ids raised %r" % (which, n_ids, e)))
+            passed = set(w for call in fakeenv.SUB.calls for w in call.split())
+            missing = [i for i in ids if i not in passed]
+            if missing:
+                mon.append(("cancel-covers-live", "%s cancel_jobs was given %d job ids but %d never reached %s "
+                            "(e.g. %s)" % (which, n_ids, len(missing), cmd, missing[:3])))
+            cases.append(Case({"cancel": which, "ids": n_ids, "rc": 0},
+                              ["sched.cancel n=%d rc=0" % n_ids], [out], mon, True))
     for ids in ([], ["f1"]):
         mon = []
         fakeenv.FLUX.answers = [(i, "R") for i in ids]
